@@ -3,20 +3,34 @@
 //
 // API summary (all of package ref's message-level API, by file):
 //
-//	value.go      Value, Kind*, Elem*, constructors (NullV, StructV, ...),
+//	value.go      Value, Kind*, Elem*, constructors (NullV, StructV, VoidListV,
+//	              BitListV, BytesListV, PtrListV, CompositeV, CapV, ...),
 //	              Identical(a,b) exact tree equality, (Value).String(),
-//	              (Value).ElemAt(i), (Value).Objects(), (Value).HasCap()
+//	              (Value).ElemAt(i), (Value).Objects(), (Value).HasCap(),
+//	              HexSegments(segs) for messages in details
 //	decode.go     Decode(segments) / DecodeWith(segments, DecodeOptions):
-//	              strict spec decoder; *DecodeError with .Unspecified
+//	              strict spec decoder; *DecodeError with .Unspecified / .Class,
+//	              IsUnspecified(err), ErrClass(err)
 //	layout.go     Layouts(v, bound) []Layout: spec ENCODER that enumerates
-//	              layouts of v (deviation-bounded); DefaultLayout(v)
-//	universe.go   Universe(n) / UniverseWith(cfg): the value universe U(n)
+//	              layouts of v (deviation-bounded); DefaultLayout(v);
+//	              Preset(v, name) / PresetFrom: whole-tree layouts "default",
+//	              "far", "skew", "upgrade"
+//	universe.go   Universe(n) / UniverseWith(cfg): the value universe U(n);
+//	              Leaves(), SlimLeaves(), DataPattern("PZ")
 //	canonical.go  Canonical(v) ([]byte, error), IsCanonical(b) error
-//	equal.go      ValueEqual(a,b) / ValueEqualCaps: the documented capnp.Equal
-//	              rules, three-valued; Truncate(v, dw, pc) copy version rule
-//	validate.go   Validate(segments): structural conformance + object extents;
-//	              Frame/Unframe: the stream segment table
-//	selftest.go   SelfTest() error: the oracle checks itself
+//	equal.go      ValueEqual(a,b) / ValueEqualCaps → Verdict (VEqual, VNotEqual,
+//	              VUnspecified): the documented capnp.Equal rules;
+//	              Truncate(v, dw, pc): the struct copy version rule
+//	validate.go   Validate(segments) (*Report, error): structural conformance
+//	              of a WRITER's output + object extents; Frame / Unframe: the
+//	              stream segment table
+//	selftest.go   SelfTest() error: the oracle checks itself (pass it as
+//	              vlib.Spec.SelfTest); SelfTestValue(v, bound)
+//
+// A message is always [][]byte: one slice per segment, no segment table, root
+// pointer in word 0 of segment 0.  The sibling package internal/verif/rcmp
+// loads such segments into a real capnp.Message and compares library reads
+// with a Value (rcmp.Load, rcmp.Checker, rcmp.Read).
 //
 // The package imports nothing from the repository under test; everything is
 // written from https://capnproto.org/encoding.html.
